@@ -5,7 +5,9 @@
 # cancellations that race a release.  Callers that ARRIVE TOGETHER (Render calls released by
 # one barrier at the same instant): as an action of any history, and - profile "together" - as
 # rounds repeated hundreds of times on one engine, with waiting callers cancelled while the gate
-# is still full.
+# is still full.  Every way a render is started: requests are Engine.Render calls or
+# Engine.RenderPartials calls with several partials (blocking / plain / unknown), released partial
+# by partial, failing at any partial; engines in both modes (Debug = true reloads per render).
 from common import *
 
 OUTCOMES = ["ok", "func_error", "panic"]
@@ -29,9 +31,37 @@ PROFILES = {
     "race":      (0.36, 0.04, 0.06, 0.04, 0.46, 0.04,  1.0),   # cancellation racing a release, again and again
     "mixed":     (0.25, 0.25, 0.20, 0.08, 0.16, 0.06,  0.5),
     "together":  (0.45, 0.05, 0.25, 0.15, 0.05, 0.05,  0.0),   # short history in front of the rounds
+    "partials":  (0.34, 0.06, 0.40, 0.08, 0.06, 0.06,  0.3),   # requests for several partials, released partial by partial
 }
 
-ROUNDS = {"quick": 160, "thorough": 300}     # rounds per case of the profile "together"
+# Share of the requests that are RenderPartials calls (the others: Render), per profile.
+P_PARTIALS = {"partials": 0.8, "together": 0.35}
+P_PARTIALS_DEFAULT = 0.25
+P_DEBUG = 0.3          # share of the engines with Debug = true
+
+
+def partials(rng, blocking=False):
+    """The partials of one RenderPartials request, 1..4 (rarely 5) kinds: 'g' its template calls the
+    blocking function, 't' plain text, 'm' unknown partial (the request ends there with an error;
+    what follows is never rendered).  [blocking]: at least one 'g' in front of any 'm'."""
+    n = rng.choice([1, 2, 2, 2, 3, 3, 4, 5])
+    ps = [rng.choice("ggggggtttm") for _ in range(n)]
+    if blocking:
+        ps[rng.randrange(n) if "m" not in ps else 0] = "g"
+    return ps
+
+
+def blocking_steps(ps):
+    """how often a request with these partials reports from inside before it is over (if every
+    blocking partial is told to return normally)"""
+    k = 0
+    for x in ps:
+        if x == "m":
+            break
+        k += x == "g"
+    return k
+
+ROUNDS = {"quick": 120, "thorough": 300}     # rounds per case of the profile "together"
 TOGETHER_EVERY = {"quick": 12, "thorough": 36}
 PROCS = [0, 0, 8, 4, 2]                       # GOMAXPROCS of such a case (0: all processors)
 
@@ -50,63 +80,94 @@ def shapes(rng, cap, total):
                     "pick": rng.randrange(8),
                     "outcome": rng.choice(["ok"] * 5 + ["func_error", "panic"]),
                     "reps": total // n + (1 if i < total % n else 0)})
+        if rng.random() < 0.4:       # the callers are requests for several partials
+            res[-1]["partials"] = rng.choice([["g", "g"], ["g", "t"], ["t", "g"], ["g", "m"], ["g", "t", "g"],
+                                              ["g", "g", "t"], ["t", "g", "g"], ["g"]])
+            res[-1]["outcome"] = rng.choice(["ok", "ok", "func_error", "panic"])
     return res
 CONTEXT_PROFILES = ["dead_free", "dead_full", "race", "mixed"]
 
 
 def history(rng, cap, maxlen, profile):
-    """A list of driver actions.  [inside]/[waitq] follow what a correct gate would do (a context
+    """A list of driver actions.  [ins]/[waitq] follow what a correct gate would do (a context
     that is over at a free slot: the select may go either way, counted as 'entered') and only bias
     the choice (release when somebody is inside, cancel / race when somebody waits); picks are
-    taken modulo the sets the harness really observes."""
+    taken modulo the sets the harness really observes.  An entry of [ins] / [waitq] is the number
+    of times the request still reports from inside (0: it passes the gate and is gone)."""
     w_live, w_dead, w_rel, w_canc, w_race, w_probe, p_burst = PROFILES[profile]
     biased = profile != "hostile"
     p_volley = 0.5 if profile == "together" else 0.12
-    n = rng.randint(10 if profile in CONTEXT_PROFILES else 3, maxlen)
+    p_part = P_PARTIALS.get(profile, P_PARTIALS_DEFAULT)
+    n = rng.randint(10 if profile in CONTEXT_PROFILES or profile == "partials" else 3, maxlen)
     acts = []
-    inside, waitq = 0, []
+    ins, waitq = [], []
 
     def base(op, **kw):
         d = {"op": op, "missing": False, "pick": 0, "outcome": ""}
         d.update(kw)
         return d
 
+    def arrive(k):
+        if cap == 0 or len(ins) < cap:
+            if k:
+                ins.append(k)
+        else:
+            waitq.append(k)
+
     def volley():
-        nonlocal inside
         k = rng.randint(2, 4)
-        acts.append(base("volley", n=k))
+        a = base("volley", n=k)
+        b = 1
+        if rng.random() < p_part:
+            a["partials"] = partials(rng, blocking=rng.random() < 0.8)
+            b = blocking_steps(a["partials"])
+        acts.append(a)
         for _ in range(k):
-            if cap == 0 or inside < cap:
-                inside += 1
-            else:
-                waitq.append("g")
+            arrive(b)
 
     def start(dead):
-        nonlocal inside
         if not dead and rng.random() < p_volley:
             return volley()
-        missing = rng.random() < 0.2
-        a = base("start", missing=missing)
+        a = base("start")
+        if rng.random() < p_part:
+            a["partials"] = partials(rng)
+            b = blocking_steps(a["partials"])
+        else:
+            a["missing"] = rng.random() < 0.2
+            b = 0 if a["missing"] else 1
         if dead:
             a["ctx"] = rng.choice(CTX_KINDS)
             if a["ctx"] == "at":
-                a["k"] = rng.choice([1, 2, 3, 3, 4, 5])
+                # Render uses its context 3 times up to the template call: k reaches into the later partials
+                a["k"] = rng.choice([1, 2, 3, 3, 4, 5] + ([6, 7, 8, 9, 10, 12] if a.get("partials") else []))
         acts.append(a)
         over = dead and a["ctx"] != "at"
-        if cap == 0 or inside < cap:
-            if not missing and not (over and rng.random() < 0.5):
-                inside += 1
+        if cap == 0 or len(ins) < cap:
+            if b and not (over and rng.random() < 0.5):
+                ins.append(b)
         elif not over:
-            waitq.append("m" if missing else "g")
+            waitq.append(b)
 
     def admit():
-        nonlocal inside
-        while waitq and inside < cap:
-            if waitq.pop(0) == "g":
-                inside += 1
+        while waitq and len(ins) < cap:
+            k = waitq.pop(0)
+            if k:
+                ins.append(k)
+
+    def leave(outcome):
+        """one request inside is told its way out"""
+        i = rng.randrange(len(ins))
+        if outcome == "ok" and ins[i] > 1:
+            ins[i] -= 1           # on to its next partial (as if it got its slot again)
+        else:
+            ins.pop(i)
+            admit()
 
     def oldest():
         return 0 if rng.random() < 0.6 else rng.randrange(8)
+
+    def outcome():
+        return rng.choice(OUTCOMES + (["func_error", "panic"] if profile == "partials" else []))
 
     if biased and cap > 0 and rng.random() < p_burst:
         for _ in range(min(n, cap + rng.randint(1, 3))):   # straight to a full gate with waiters
@@ -126,21 +187,21 @@ def history(rng, cap, maxlen, profile):
         else:
             op = "probe"
         if biased:
-            if inside == 0 and not waitq and op in ("release", "cancel", "race"):
+            if not ins and not waitq and op in ("release", "cancel", "race"):
                 op = "dead" if w_dead > w_live else "start"
-            elif op == "release" and not inside:
+            elif op == "release" and not ins:
                 op = "start"
             elif op == "cancel" and not waitq:
                 op = "start"
-            elif op == "race" and not (waitq and inside):
+            elif op == "race" and not (waitq and ins):
                 op = "start"          # builds up the queue the next race needs
         if op in ("start", "dead"):
             start(op == "dead")
         elif op == "release":
-            acts.append(base("release", pick=rng.randrange(8), outcome=rng.choice(OUTCOMES)))
-            if inside:
-                inside -= 1
-                admit()
+            o = outcome()
+            acts.append(base("release", pick=rng.randrange(8), outcome=o))
+            if ins:
+                leave(o)
         elif op == "cancel":
             k = oldest()
             acts.append(base("cancel", pick=k))
@@ -149,51 +210,140 @@ def history(rng, cap, maxlen, profile):
         elif op == "race":
             k = oldest()
             order = rng.choice([0, 0, 1, 1, 1, 2])
-            acts.append(base("race", pick=k, pick2=rng.randrange(8), outcome=rng.choice(OUTCOMES), order=order,
+            o = outcome()
+            acts.append(base("race", pick=k, pick2=rng.randrange(8), outcome=o, order=order,
                              delay_us=0 if order == 0 else rng.choice([0, 1, 2, 5, 10, 20, 40, 80, 150])))
-            if waitq and inside:
+            if waitq and ins:
                 waitq.pop(k % len(waitq))     # gets the error, or takes the slot: either way off the queue
                 if rng.random() < 0.5:
-                    inside -= 1
+                    leave(o)
                 admit()
-            elif inside:
-                inside -= 1
+            elif ins:
+                leave(o)
         else:
             acts.append(base("probe"))
     return acts
 
 
-def window_events(cap, w, prev_inside, commanded):
-    """The window as gate events, in the fixed order documented in Run/Judge_C09.v."""
-    ev = []
-    dead_start = set()
-    if w["op"] in ("start", "refill"):
-        over = w.get("ctx") in ("cancelled", "expired")
-        ev += [b"Start %d %s" % (r, cq_bool(over)) for r in w["rids"]]
-        if over:
-            dead_start = set(w["rids"])
-    ev += [b"CtxEnd %d" % r for r in w["ended"] if r not in dead_start]
-    ent = set(w["entered"])
-    fin_ids = {f["rid"] for f in w["finished"]}
+class Emitter:
+    """Turns the windows of one history (the case's own, or one round) into request events of
+    Models/Gate.v, in the fixed order documented in Run/Judge_C09.v, and collects the tables
+    [commanded] (the way out a request was told to take, or - never told - the way out its list
+    of partials prescribes: an unknown partial = not found, otherwise ok) and [cancels].
+    Names of renders: request * 8 + number of the partial."""
 
-    def leave(f):
-        o = commanded.get(f["rid"]) or CLS_OUTCOME.get(f["class"], "ok")
-        return b"Leave %d %s" % (f["rid"], CQ_OUTCOME[o])
+    def __init__(self, cap):
+        self.cap = cap
+        self.steps, self.pos, self.sub, self.gc = {}, {}, {}, {}
+        self.commanded, self.cancels = {}, []
+        self.prev = set()
 
-    for f in w["finished"]:
-        if f["rid"] in prev_inside:
-            ev.append(leave(f))
-    for f in w["finished"]:
-        if f["rid"] not in prev_inside and f["class"] == "ctx_error" and f["rid"] not in ent:
-            ev.append(b"Cancel %d" % f["rid"])
-    for f in w["finished"]:
-        if f["rid"] not in prev_inside and not (f["class"] == "ctx_error" and f["rid"] not in ent):
-            if cap > 0:
-                ev.append(b"Enter %d" % f["rid"])
-            ev.append(leave(f))
-    if cap > 0:
-        ev += [b"Enter %d" % r for r in w["entered"] if r not in fin_ids]
-    return ev
+    def name(self, q):
+        k = self.sub.get(q, 1)
+        self.sub[q] = k + 1
+        return q * 8 + min(k, 7)
+
+    def enter(self, q):
+        return [b"REnter %d" % q] if self.cap > 0 else []
+
+    def next(self, q):
+        self.pos[q] = self.pos.get(q, 0) + 1
+        return [b"RNext %d %d" % (q, self.name(q))]
+
+    def walk_in(self, q):
+        """the request reported from inside: it is in its next blocking partial, after passing
+        through the plain ones in front of it"""
+        steps, p = self.steps.get(q, ["g"]), self.pos.get(q, 0)
+        self.gc[q] = self.gc.get(q, 0) + 1
+        gs = [i for i, k in enumerate(steps) if k == "g"]
+        idx = gs[self.gc[q] - 1] if self.gc[q] <= len(gs) else p
+        ev = []
+        for _ in range(p, idx):
+            ev += self.enter(q) + self.next(q)
+        return ev + self.enter(q)
+
+    def walk_out(self, q, cls):
+        """the request returned without reporting from inside (again): plain partials up to the
+        end, or up to an unknown partial"""
+        steps, p = self.steps.get(q, ["g"]), self.pos.get(q, 0)
+        idx, o = len(steps) - 1, "ok"
+        for i in range(p, len(steps)):
+            if steps[i] == "m":
+                idx, o = i, "not_found"
+                break
+            if steps[i] == "g":   # cannot be passed unseen: the class has to speak for itself
+                idx, o = i, CLS_OUTCOME.get(cls, "ok")
+                break
+        idx = max(idx, p)
+        o = self.commanded.setdefault(q, o)
+        ev = []
+        for _ in range(p, idx):
+            ev += self.enter(q) + self.next(q)
+        return ev + self.enter(q) + [b"RReturn %d %s" % (q, CQ_OUTCOME[o])]
+
+    def window(self, w):
+        ev = []
+        dead_start = set()
+        if w["op"] in ("start", "refill"):
+            over = w.get("ctx") in ("cancelled", "expired")
+            steps = list(w.get("partials") or []) or (["m"] if w.get("missing") else ["g"])
+            for q in w["rids"]:
+                self.steps[q], self.pos[q] = steps, 0
+                ev.append(b"RCall %d %d %s" % (q, q * 8, cq_bool(over)))
+            if over:
+                dead_start = set(w["rids"])
+        ev += [b"REnd %d" % q for q in w["ended"] if q not in dead_start]
+        ent = set(w["entered"])
+        fin_ids = {f["rid"] for f in w["finished"]}
+        moved = list(w.get("moved") or [])
+        # what the driver told in this window
+        told = {}
+        if w["op"] == "release":
+            told[w["rids"][0]] = w["outcome"]
+        elif w["op"] == "race":
+            told[w["rids"][1]] = w["outcome"]
+        elif w["op"] == "drain":
+            for q in w["rids"]:
+                told[q] = w.get("outcome") or "ok"
+        elif w["op"] in ("cancel", "drain_cancel"):
+            for q in w["rids"]:
+                self.cancels.append((q, q in fin_ids))
+        for q, o in told.items():
+            if q not in moved:
+                self.commanded[q] = o
+        for q in moved:                    # slot handed back, on to the next partial
+            ev += self.next(q)
+        done = set()
+        for f in w["finished"]:            # were inside: the deferred receive
+            q = f["rid"]
+            if q in self.prev and q not in moved:
+                o = self.commanded.setdefault(q, CLS_OUTCOME.get(f["class"], "ok"))
+                ev.append(b"RReturn %d %s" % (q, CQ_OUTCOME[o]))
+                done.add(q)
+        for f in w["finished"]:            # at the gate: the context error
+            q = f["rid"]
+            if q not in done and f["class"] == "ctx_error" and q not in ent:
+                ev.append(b"RError %d" % q)
+                done.add(q)
+        for f in w["finished"]:            # through the gate and out within the window
+            q = f["rid"]
+            if q not in done:
+                if q in ent:
+                    ev += self.walk_in(q)
+                    o = self.commanded.setdefault(q, CLS_OUTCOME.get(f["class"], "ok"))
+                    ev.append(b"RReturn %d %s" % (q, CQ_OUTCOME[o]))
+                else:
+                    ev += self.walk_out(q, f["class"])
+        for q in w["entered"]:             # newly inside
+            if q not in fin_ids:
+                ev += self.walk_in(q)
+        self.prev = set(w["inside"])
+        return ev
+
+
+def emit_history(cap, windows):
+    em = Emitter(cap)
+    return [em.window(w) for w in windows], em.commanded, em.cancels
 
 
 class C09(Prop):
@@ -206,34 +356,57 @@ class C09(Prop):
     sizes = {"quick": 300, "thorough": 5000}
     design_ref = "DESIGN.md section 6 C09, Appendix A"
     rule = ("one case = one real Engine with limit N in 0..4 (WithRateLimit, or Engine.Inject of the config value "
-            "on an engine built with another limit) and a generated history of <= 25 (thorough <= 40) driver actions "
+            "on an engine built with another limit), in debug mode (Engine.Debug = true: every render reloads its "
+            "template first) in 30% of the cases, and a generated history of <= 25 (thorough <= 40) driver actions "
             "(context profiles: >= 10): "
-            "start a render (template calling the blocking function gate(id), or a missing template) with a live "
+            "start a REQUEST - Engine.Render (template calling the blocking function gate(id), or a missing template) "
+            "or, 25% of the requests (80% in the profile 'partials', 35% in 'together'), Engine.RenderPartials with "
+            "1..5 partials, each a partial whose template calls gate(id) (60%), a partial of plain text (30%) or an "
+            "unknown partial (10%; the request ends there, later partials are never rendered) - with a live "
             "context, with a context that is ALREADY over (cancelled before the call / deadline in the past) or with "
-            "a context that ends by itself at its k-th use (k in 1..5: Render uses its context 3 times up to the template call, so this is before, in and right after the select, or never); "
+            "a context that ends by itself at its k-th use (k in 1..5, for partials requests 1..12: Render uses its context 3 times up to the template call, so this is before, in and right after the select of the first or of a later partial, or never); "
             "start 2..4 renders that ARRIVE TOGETHER (their goroutines wait on one barrier, spinning on a start flag, "
-            "and call Render at the same instant; 12% of the live starts, 6% of all actions); tell a "
-            "render that is inside to return / fail in a template function / panic; cancel a waiting render's context; "
+            "and call Render / RenderPartials at the same instant; 12% of the live starts, 6% of all actions); tell a "
+            "request that is inside (one of its templates is executing) to return / fail in a template function / "
+            "panic - a blocking partial that is not the last one and is told to return hands its slot back and the "
+            "request goes to the gate again for its next partial, where it may find the slot taken by a waiting "
+            "caller, wait, and be cancelled; cancel a waiting request's context; "
             "RACE: end a waiting render's context while a render inside is told to leave (both at once, or 0..150 us "
             "apart in either order; the waiter is the oldest one in 60%); probe; then drain and a refill probe with N "
-            "fresh renders that must all be inside together.  Profiles: 37% classic (bursts beyond the limit, releases "
-            "while others wait), 14% unbiased, 41% context profiles in equal parts - over-contexts at a gate with free "
+            "fresh renders that must all be inside together.  Profiles: 26% classic (bursts beyond the limit, releases "
+            "while others wait), 11% unbiased, 16% partials (mostly RenderPartials requests, released partial by "
+            "partial, 60% of the exits failing), 39% context profiles in equal parts - over-contexts at a gate with free "
             "slots alternating with releases, over-contexts at a full gate, race after race with the queue refilled, "
             "mixed - so that a slot lost per such event exhausts the limit within one history; 1/12 (8%) of the cases "
-            "'together': a short history, then ROUNDS on the same engine between drain and refill probe - 160 per case "
-            "(quick 25 cases = 4000 rounds; thorough 300 per case, 1/36 of the cases = 139 cases = 41700 rounds) of 1..3 kinds taking turns: p in 0..N-1 renders are put inside "
+            "'together': a short history, then ROUNDS on the same engine between drain and refill probe - 120 per case "
+            "(quick 25 cases = 3000 rounds, plus 500 rounds of two corpus witnesses; thorough 300 per case, 1/36 of the cases = 139 cases = 41700 rounds) of 1..3 kinds taking turns: p in 0..N-1 renders are put inside "
             "(f = N-p free slots, 1 <= f <= N), k = f+1..f+4 (<= 8) callers arrive together so that f get in and the rest "
             "waits, the contexts of all (50%) or of 1..k-f of the waiting ones are ended while the renders inside are "
             "still held and each must come back with the context error within the bound (10 s) while the gate is still full, "
             "then those inside leave (ok 5/7, failing template function 1/7, panic 1/7), the remaining waiters get in and "
-            "leave; limits 1,1,1,2,2,3,4 (8%: disabled, nobody may wait); such cases run one at a time with GOMAXPROCS "
+            "leave; in 40% of the kinds the callers are RenderPartials requests with 1..3 partials (then half of the "
+            "exits fail), which go through the gate once per partial; limits 1,1,1,2,2,3,4 (8%: disabled, nobody may wait); such cases run one at a time with GOMAXPROCS "
             "16,16,8,4,2 in turn; a round is judged as a history of its own (theorem C09_round_reset), identical round "
             "records are judged once; a round in which a step does not finish within the bound ends the rounds of its case, "
             "and after 5 such cases the later cases of the run drive no rounds (saves time on a broken tree).  The histories are "
-            "biased by a counting model of a correct gate; non-trivial = some render was observed waiting, or the "
+            "biased by a counting model of a correct gate; non-trivial = some request was observed waiting, or the "
             "limit is disabled and >= 2 renders were inside together, or a context was over at an enabled gate; "
             "distinct by SHA-1 of the case")
     trusted = [
+        "requests: the model of RenderPartials is the loop of pugjs/engine.go - one Render call per partial with the "
+        "request's context, return at the first error, a panic of a template function leaves the loop - as request "
+        "events RCall/REnd/REnter/RNext/RReturn/RError over the gate (Models/Gate.v, theorem C09_requests_refine: every "
+        "accepted request history is an accepted gate history); that nothing but Render touches the slot channel on "
+        "behalf of a request is read off the code and exercised by the runs, not proved about the Go source",
+        "engine modes: the gate block of Render does not read Engine.Debug; the model has no mode and is compared with "
+        "engines in both modes (dbg in the case record is informative); in debug mode every render calls "
+        "LoadTemplates(name) after the gate - the harness does not observe the load, only that the bound, the waiting "
+        "and the release on every exit are the same",
+        "observation of requests: all partials of a request get the same data, the n-th gate(id) call with the id of a "
+        "request is its n-th blocking partial; plain and unknown partials are not seen from inside, the emitter infers "
+        "that they were passed (each takes and returns a slot in the model) from the list of partials and from how far "
+        "the request got; a request told to go on to its next partial is counted as waiting from that moment "
+        "(window field moved) although its slot is handed back some microseconds later",
         "the gate is modelled at the level of events Start(context over?)/CtxEnd/Enter/Leave/Cancel per Render call; "
         "that a buffered Go channel of capacity N admits exactly N pending sends, that select takes a ready case and "
         "may take either of two ready cases, that <-ctx.Done() is ready exactly for a context that is over, and that "
@@ -269,12 +442,16 @@ class C09(Prop):
         "to the runtime and not constrained by the model",
         "panics of template functions are recovered by the harness around Engine.Render (the engine itself does not "
         "recover them); classes of outcomes are compared, never error texts",
+        "oracle for requests with several partials: 'takes no slot' / 'never was inside' for a request that got the "
+        "context error is checked from the window on in which it went to the gate for the last time (it was inside, "
+        "rightly, for its earlier partials); a slot kept ACROSS partials by a request is not an error the oracle "
+        "names by itself - it shows when another caller waits although fewer than N are inside, or at the refill",
         "a slot that is taken and never handed back is not visible at the call that loses it; it is observed through "
         "its consequences in the same history: a render waiting although fewer than N are inside, or the refill "
         "probe at the end not getting N renders inside",
         "a fault that needs two Render calls to be at the gate within the same few instructions shows only in some of "
         "the rounds (measured on such a fault: one round in 20..200 at limit 1 with 4 callers on 16 processors); the "
-        "4000 rounds of a quick run make a miss unlikely, they do not exclude it",
+        "3500 rounds of a quick run make a miss unlikely, they do not exclude it",
     ]
     not_yet_proved = []
 
@@ -288,14 +465,19 @@ class C09(Prop):
                 # callers that arrive together, round after round: 1/12 of the cases (thorough: 1/36, longer)
                 cap = rng.choice([1, 1, 1, 2, 2, 3, 4]) if rng.random() < 0.92 else 0
                 cases.append({"cap": cap, "via_inject": False, "init": 0, "profile": "together",
+                              "debug": rng.random() < P_DEBUG,
                               "actions": history(rng, cap, 6, "together"),
                               "shapes": shapes(rng, cap, ROUNDS[tier]),
                               "procs": PROCS[(i // TOGETHER_EVERY[tier]) % len(PROCS)]})
                 continue
-            if x < 0.40:
+            if x < 0.28:
                 profile = "classic"
-            elif x < 0.55:
+            elif x < 0.40:
                 profile = "hostile"
+            elif x < 0.58:
+                profile = "partials"
+                if cap == 0 and rng.random() < 0.7:
+                    cap = rng.randint(1, 4)
             else:
                 profile = CONTEXT_PROFILES[(i // 5) % len(CONTEXT_PROFILES)]
                 if cap == 0 and rng.random() < 0.7:
@@ -303,7 +485,7 @@ class C09(Prop):
             via = rng.random() < 0.25
             cases.append({"cap": cap, "via_inject": via,
                           "init": rng.choice([0, 1, 3, 8]) if via else 0,
-                          "profile": profile,
+                          "profile": profile, "debug": rng.random() < P_DEBUG,
                           "actions": history(rng, cap, maxlen, profile)})
         rng.shuffle(cases)
         return cases
@@ -314,37 +496,22 @@ class C09(Prop):
 
     @staticmethod
     def _tables_of(windows):
-        commanded, cancels = {}, []
-        for w in windows:
-            fin_ids = {f["rid"] for f in w["finished"]}
-            if w["op"] == "start" and w["missing"]:
-                commanded[w["rids"][0]] = "not_found"
-            elif w["op"] == "release":
-                commanded[w["rids"][0]] = w["outcome"]
-            elif w["op"] == "race":
-                commanded[w["rids"][1]] = w["outcome"]
-            elif w["op"] == "drain":
-                for r in w["rids"]:
-                    commanded[r] = w.get("outcome") or "ok"
-            elif w["op"] in ("cancel", "drain_cancel"):
-                for r in w["rids"]:
-                    cancels.append((r, r in fin_ids))
+        _, commanded, cancels = emit_history(1, windows)
         return commanded, cancels
 
     def _history_terms(self, cap, windows):
         """(wins, cancels, commanded) of one history - the case's own, or one round - as Gallina."""
-        commanded, cancels = self._tables_of(windows)
-        wins, prev = [], set()
-        for w in windows:
-            evs = window_events(cap, w, prev, commanded)
-            prev = set(w["inside"])
+        events, commanded, cancels = emit_history(cap, windows)
+        wins = []
+        for w, evs in zip(windows, events):
             wins.append(b"{| w_events := " + cq_list(evs) +
                         b"; w_entered := " + cq_list([cq_nat(r) for r in w["entered"]]) +
                         b"; w_ended := " + cq_list([cq_nat(r) for r in w["ended"]]) +
                         b"; w_inside := " + cq_list([cq_nat(r) for r in w["inside"]]) +
                         b"; w_waiting := " + cq_list([cq_nat(r) for r in w["waiting"]]) +
                         b"; w_returned := " + cq_list([cq_pair(cq_nat(f["rid"]), CQ_CLS.get(f["class"], b"c_other"))
-                                                       for f in w["finished"]]) + b" |}")
+                                                       for f in w["finished"]]) +
+                        b"; w_moved := " + cq_list([cq_nat(r) for r in (w.get("moved") or [])]) + b" |}")
         return (cq_list(wins),
                 cq_list([cq_pair(cq_nat(r), cq_bool(p)) for r, p in cancels]),
                 cq_list([cq_pair(cq_nat(r), CQ_OUTCOME[o]) for r, o in sorted(commanded.items())]))
@@ -356,7 +523,7 @@ class C09(Prop):
         for r in obs.get("rounds", []):       # the distinct rounds; how often each occurred does not matter to the judge
             rw, rc, rm = self._history_terms(cap, r["windows"])
             rounds.append(b"{| r_wins := " + rw + b"; r_cancels := " + rc + b"; r_commanded := " + rm + b" |}")
-        return (b"{| cfg := " + cq_nat(cap) + b"; go_limit := " + cq_nat(max(0, min(obs["limit"], 4999))) +
+        return (b"{| cfg := " + cq_nat(cap) + b"; dbg := " + cq_bool(bool(case.get("debug"))) + b"; go_limit := " + cq_nat(max(0, min(obs["limit"], 4999))) +
                 b"; wins := " + wins + b"; cancels := " + cancels + b"; commanded := " + commanded +
                 b"; refill_ok := " + cq_bool(obs["refill_ok"]) +
                 b"; rounds := " + cq_list(rounds) + b" |}")
@@ -371,10 +538,12 @@ class C09(Prop):
         def act(a):
             if a["op"] == "start":
                 c = a.get("ctx", "")
-                return ("start-missing" if a["missing"] else "start") + \
+                return (("partials(%s)" % ",".join(a["partials"])) if a.get("partials") else
+                        "start-missing" if a["missing"] else "start") + \
                     ("" if not c else "[ctx %s%s]" % (c, (" %d" % a.get("k", 1)) if c == "at" else ""))
             if a["op"] == "volley":
-                return "%d start together" % a.get("n", 2)
+                return "%d start together%s" % (a.get("n", 2), (" each partials(%s)" % ",".join(a["partials"]))
+                                                if a.get("partials") else "")
             if a["op"] == "release":
                 return "release#%d:%s" % (a["pick"], a["outcome"])
             if a["op"] == "cancel":
@@ -386,20 +555,24 @@ class C09(Prop):
                     % (() if a.get("order", 0) % 3 == 0 else (a.get("delay_us", 0),)))
             return a["op"]
         def seen(ws):
-            return ["%s%s%s%s -> returned %s inside %s waiting %s%s" % (
+            return ["%s%s%s%s%s -> %sreturned %s inside %s waiting %s%s" % (
                 w["op"], w["rids"], (":" + w["outcome"]) if w.get("outcome") else "",
+                (" partials(%s)" % ",".join(w["partials"])) if w.get("partials") else "",
                 (" ctx=" + w["ctx"]) if w.get("ctx") else "",
+                ("on to the next partial %s " % w["moved"]) if w.get("moved") else "",
                 ["%d:%s" % (f["rid"], f["class"]) for f in w["finished"]], w["inside"], w["waiting"],
                 (" context over: %s" % w["ended"]) if w["ended"] else "")
                 for w in ws]
         d = {"limit": case["cap"], "via_inject": case["via_inject"], "init": case["init"],
-             "profile": case.get("profile", ""),
+             "engine_debug": bool(case.get("debug")), "profile": case.get("profile", ""),
              "actions": [act(a) for a in case["actions"]],
              "observed": seen(obs["windows"]),
              "get_rate_limit": obs["limit"], "refill_ok": obs["refill_ok"]}
         if case.get("shapes"):
-            d["rounds"] = ["%d x (%d inside first, %d arrive together, %s of the waiting ones cancelled from #%d, "
+            d["rounds"] = ["%d x (%d inside first, %d %sarrive together, %s of the waiting ones cancelled from #%d, "
                            "those inside leave by %s)" % (sh["reps"], sh["pre"], sh["k"],
+                                                          ("requests for partials(%s) " % ",".join(sh["partials"]))
+                                                          if sh.get("partials") else "",
                                                           "all" if sh["cancel"] <= 0 else str(sh["cancel"]),
                                                           sh["pick"], sh["outcome"]) for sh in case["shapes"]]
             d["gomaxprocs"] = obs.get("procs")
@@ -433,6 +606,12 @@ class C09(Prop):
             return
         sh = shs[0]
         free = max(0, case["cap"] - sh["pre"])
+        if sh.get("partials"):
+            yield dict(case, shapes=[{k: v for k, v in sh.items() if k != "partials"}])
+            if len(sh["partials"]) > 1:
+                yield dict(case, shapes=[dict(sh, partials=sh["partials"][:-1])])
+        if case.get("debug"):
+            yield dict(case, debug=False)
         for ch in ({"pre": 0, "k": sh["k"] + sh["pre"]} if sh["pre"] else None,
                    {"outcome": "ok"} if sh["outcome"] != "ok" else None,
                    {"cancel": 0, "pick": 0} if sh["cancel"] > 0 or sh["pick"] else None,
@@ -460,6 +639,8 @@ class C09(Prop):
         n = len(acts)
         if case["via_inject"]:
             yield dict(case, via_inject=False, init=0)
+        if case.get("debug"):
+            yield dict(case, debug=False)
         k = n // 2
         while k >= 1:
             for i in range(0, n, k):
@@ -473,6 +654,14 @@ class C09(Prop):
                 yield repl(dict(a, outcome="ok"))
             if a["op"] == "start" and a["missing"]:
                 yield repl(dict(a, missing=False))
+            if a.get("partials"):
+                ps = a["partials"]
+                yield repl({k2: v for k2, v in a.items() if k2 != "partials"})
+                for j in range(len(ps)):
+                    if len(ps) > 1:
+                        yield repl(dict(a, partials=ps[:j] + ps[j + 1:]))
+                    if ps[j] == "t":
+                        yield repl(dict(a, partials=ps[:j] + ["g"] + ps[j + 1:]))
             if a["op"] == "volley":
                 if a.get("n", 2) > 2:
                     yield repl(dict(a, n=a["n"] - 1))
@@ -484,8 +673,9 @@ class C09(Prop):
                 yield repl({"op": "cancel", "missing": False, "pick": a["pick"], "outcome": ""})
 
     def model_expr(self):
-        return ("(reach (cfg c) (flat_map w_events (wins c)), model_states (Some (gate_init (cfg c))) (wins c), "
-                "map (fun r => (oracle1 (round_case c r), model_states (Some (gate_init (cfg c))) (r_wins r))) (rounds c))")
+        return ("(match req_reach (cfg c) (flat_map w_events (wins c)) with Some s => Some (gate s, cur s) | None => None end, "
+                "model_states (Some (req_init (cfg c))) (wins c), "
+                "map (fun r => (oracle1 (round_case c r), model_states (Some (req_init (cfg c))) (r_wins r))) (rounds c))")
 
     def distribution(self, cases, obss):
         d = {"per_limit": {}, "per_profile": {}, "via_inject": 0, "actions": 0, "renders": 0,
@@ -495,6 +685,10 @@ class C09(Prop):
              "self_ending_contexts": 0, "self_ending_fired": 0,
              "races": 0, "race_waiter_got_error": 0, "race_waiter_took_slot": 0,
              "left_ok": 0, "left_not_found": 0, "left_func_error": 0, "left_panic": 0,
+             "engines_debug": 0, "engines_debug_with_limit": 0, "cases_with_partials_requests": 0,
+             "partials_requests": 0, "partials_requested": 0, "partials_kinds": {"g": 0, "t": 0, "m": 0},
+             "partials_requests_went_on_to_next_partial": 0, "partials_requests_waited_again_at_the_gate": 0,
+             "partials_requests_ended": {}, "round_partials_requests": 0,
              "max_waiting": 0, "windows": 0, "windows_not_settled": 0, "goroutines_left_blocked": 0,
              "arrivals_together_in_histories": 0,
              "cases_with_rounds": 0, "rounds": 0, "rounds_distinct_records": 0, "rounds_cut_short": 0,
@@ -508,6 +702,28 @@ class C09(Prop):
             d["per_profile"][pr] = d["per_profile"].get(pr, 0) + 1
             d["via_inject"] += c["via_inject"]
             d["actions"] += len(c["actions"])
+            d["engines_debug"] += bool(c.get("debug"))
+            d["engines_debug_with_limit"] += bool(c.get("debug")) and cap > 0
+            preq = {}
+            for w in o["windows"]:
+                if w["op"] == "start" and w.get("partials"):
+                    for r in w["rids"]:
+                        preq[r] = w["partials"]
+                    d["partials_requests"] += len(w["rids"])
+                    d["partials_requested"] += len(w["rids"]) * len(w["partials"])
+                    for x in w["partials"]:
+                        d["partials_kinds"][x] = d["partials_kinds"].get(x, 0) + len(w["rids"])
+                d["partials_requests_went_on_to_next_partial"] += len(w.get("moved") or [])
+                d["partials_requests_waited_again_at_the_gate"] += len([r for r in (w.get("moved") or [])
+                                                                       if r in w["waiting"]])
+                for f in w["finished"]:
+                    if f["rid"] in preq:
+                        d["partials_requests_ended"][f["class"]] = d["partials_requests_ended"].get(f["class"], 0) + 1
+            d["cases_with_partials_requests"] += bool(preq)
+            for r in o.get("rounds", []):
+                for w in r["windows"]:
+                    if w["op"] == "start" and w.get("partials"):
+                        d["round_partials_requests"] += r["count"] * len(w["rids"])
             d["goroutines_left_blocked"] += o.get("leftover", 0)
             commanded, cancels = self._tables(o)
             d["cancelled_while_waiting"] += len(cancels)
